@@ -11,6 +11,7 @@ from torch import Tensor
 from linear_operator.operators._linear_operator import IndexType, LinearOperator
 
 from linear_operator.utils.broadcasting import _matmul_broadcast_shape
+from linear_operator.utils.generic import _to_helper
 from linear_operator.utils.getitem import _compute_getitem_size
 from linear_operator.utils.memoize import cached
 
@@ -39,11 +40,21 @@ class ZeroLinearOperator(LinearOperator):
     def __init__(
         self, *sizes: Tuple[int, ...], dtype: Optional[torch.dtype] = None, device: Optional[torch.device] = None
     ):
-        super(ZeroLinearOperator, self).__init__(*sizes)
+        dtype = dtype or torch.get_default_dtype()
+        device = device or torch.device("cpu")
+        # dtype / device are constructor arguments: record them so that copies keep them
+        super(ZeroLinearOperator, self).__init__(*sizes, dtype=dtype, device=device)
         self.sizes = list(sizes)
 
-        self._dtype = dtype or torch.get_default_dtype()
-        self._device = device or torch.device("cpu")
+        self._dtype = dtype
+        self._device = device
+
+    def type(self, dtype: torch.dtype) -> LinearOperator:
+        return self.__class__(*self.sizes, dtype=dtype, device=self._device)
+
+    def to(self, *args, **kwargs) -> LinearOperator:
+        device, dtype = _to_helper(*args, **kwargs)
+        return self.__class__(*self.sizes, dtype=dtype or self._dtype, device=device or self._device)
 
     @property
     def dtype(self) -> Optional[torch.dtype]:
